@@ -20,7 +20,7 @@ CACHE = os.path.join(VERIF, ".cache")
 DRIVER_DIR = os.path.join(VERIF, "driver")
 DRIVER_BIN = os.path.join(DRIVER_DIR, "target", "debug", "jjv-driver")
 TARGET_DIR = os.path.join(CACHE, "target")
-SCHEMA_VERSION = "7"
+SCHEMA_VERSION = "11"
 
 # floors derived from the counts measured on the pinned tree (308 / 8140 / 6536)
 BODY_FLOORS = {"jj_core": 300, "jj_lib": 7800, "jj_cli": 6200}
@@ -136,11 +136,13 @@ class Loader:
         CREATE TABLE lit(fn TEXT, root TEXT, v TEXT);
         CREATE TABLE str_const(fn TEXT, root TEXT, bb INT, v TEXT, item TEXT);
         CREATE TABLE fnref(fn TEXT, root TEXT, bb INT, target TEXT);
+        CREATE TABLE const_ref(fn TEXT, root TEXT, bb INT, item TEXT);
+        CREATE TABLE enum_const(fn TEXT, root TEXT, bb INT, adt TEXT, variant TEXT);
         CREATE TABLE summary(crate TEXT, bodies INT, stolen INT);
         CREATE TABLE stolen(id TEXT);
         """)
         self.rows = {k: [] for k in ("fn", "body", "decl", "adt", "adt_variant", "adt_field", "const", "impl",
-                                     "impl_item", "call", "field_access", "aggregate", "lit", "str_const", "fnref",
+                                     "impl_item", "call", "field_access", "aggregate", "lit", "str_const", "fnref", "const_ref", "enum_const",
                                      "summary", "stolen")}
 
     # -- per-record handlers -------------------------------------------------
@@ -201,7 +203,23 @@ class Loader:
                     R["str_const"].append((fid, root, bb, c["v"], c.get("item")))
                 if "fn" in c:
                     R["fnref"].append((fid, root, bb, c["fn"]))
+                if "item" in c and "promoted" not in c:
+                    R["const_ref"].append((fid, root, bb, c["item"]))
+                if "bytes" in c:
+                    R["str_const"].append((fid, root, bb, c["bytes"], "(bytes)"))
+                if "variant" in c:
+                    R["enum_const"].append((fid, root, bb, c.get("adt"), c["variant"]))
 
+        for pr in r.get("promoted", []):
+            for pb in pr["blocks"]:
+                for s in pb["s"]:
+                    rv = s["r"]
+                    for o in ([rv.get("o")] if rv["k"] in ("use", "cast") else (rv.get("o", []) if rv["k"] == "agg" else [])):
+                        if o and o[0] == "k":
+                            operand_reads(o, -1, s.get("ln", 0))
+                    if rv["k"] == "agg":
+                        R["aggregate"].append((fid, root, -1, rv["ak"], rv.get("adt"), rv.get("v"), rv.get("def"),
+                                               len(rv["o"]), s.get("ln", 0)))
         for bb, b in enumerate(r["blocks"]):
             for s in b["s"]:
                 ln = s.get("ln", 0)
@@ -268,6 +286,7 @@ class Loader:
         CREATE INDEX agg_root ON aggregate(root);
         CREATE INDEX lit_root ON lit(root);
         CREATE INDEX fnref_root ON fnref(root);
+        CREATE INDEX const_ref_root ON const_ref(root);
         CREATE INDEX impl_item_t ON impl_item(trait_item);
         CREATE INDEX impl_item_i ON impl_item(impl_item);
         CREATE INDEX adt_field_a ON adt_field(adt);
